@@ -4,8 +4,10 @@ import StirVerif.C03.Model
 Sections of the protocol
 * `cfg …` / `sym …`      : a `DataSymmetriesForBins_PET_CartesianGrid` object; basic bin, symmetry operation
                             applied to the basic bin, to its view/segment and to sample voxels;
-* `pgeo/pnew/pset/psetup/pmode/pclear/pget` : histories on a `ProjMatrixByBinUsingRayTracing`; the rows of
-                            basic bins computed by the ray tracer arrive as data (`data …`), values are opaque tokens;
+* `pgeo/pnew/pset/psetup/pmode/pclear/pget` : histories on a `ProjMatrixByBinUsingRayTracing` (`pnew 0`) or a
+                            `ProjMatrixByBinUsingInterpolation` (`pnew 1`: `set_up` without short cut); the rows of
+                            basic bins computed by `calculate_proj_matrix_elems_for_one_bin` (+ TOF kernel) arrive as data
+                            (`data …`), values are opaque tokens;
 * `merge …`               : `ProjMatrixElemsForOneBin::merge` on rows with integer values. -/
 namespace Driver.C03
 open StirVerif.C03
@@ -36,6 +38,8 @@ structure Geo where
   maxAbsAx0 : Nat
   maxAbsTang : Nat
   maxAbsTof : Nat
+  actualElig : Bool := false -- non-arc-corrected data without view mashing and axial compression: `set_up` leaves
+                             -- `use_actual_detector_boundaries` on (ProjMatrixByBinUsingRayTracing.cxx:298-386)
   eqclass : Nat := 0         -- geometries that `set_up` cannot tell apart (equal projection data, voxel size, origin
                              -- and index range of the image, by the library's own `==`) share it: the model's `G`
 
@@ -102,11 +106,14 @@ def parseElems : Nat → List String → Elems
 def fmtElems (e : Elems) : String :=
   " ".intercalate (toString e.length :: e.map fun p => s!"{fmtVox p.1} {p.2}")
 
-/-- key of the table of computed rows: geometry (class), number of tangential rays, FOV restriction, bin -/
+/-- key of the table of computed rows: matrix class, geometry (class), number of tangential rays, FOV restriction,
+    detector boundaries, bin -/
 structure DKey where
+  kind : Nat
   gid : Nat
   ntl : Nat
   restrictFOV : Bool
+  actual : Bool
   bin : Bin
   deriving DecidableEq
 
@@ -115,6 +122,11 @@ structure St where
   flags : Flags := default
   geos : List (Nat × Geo) := []
   table : List (DKey × Elems) := []
+  kind : Nat := 0              -- 0: ProjMatrixByBinUsingRayTracing, 1: ProjMatrixByBinUsingInterpolation
+  actualKeepsViewSym : Bool := true
+                               -- which `set_up` the implementation has (the harness looks): `true`: the five switches go to
+                               -- the symmetries constructor as they are; `false`: `set_up` switches the 90°/180° symmetries
+                               -- off when `use_actual_detector_boundaries` stays on (proposed repair C03-5)
   pm : PM Nat String := { params := default }
 
 /-- the geometry of a class (any member: the tokens of all members agree) -/
@@ -122,8 +134,12 @@ def St.ofClass (st : St) (c : Nat) : Geo := ((st.geos.find? fun e => e.2.eqclass
 
 /-- the model's geometries `G` are the classes -/
 def St.world (st : St) : World Nat String :=
-  { symOf := fun g p => (st.ofClass g).sym p.flags
-    compute := fun g p b => (st.table.find? fun e => e.1 == ⟨g, p.ntl, p.restrictFOV, b⟩).map (·.2)
+  { symOf := fun g p =>
+      let gg := st.ofClass g
+      let f := if st.kind == 0 && p.actualBoundaries && gg.actualElig && !st.actualKeepsViewSym
+               then { p.flags with d90 := false, d180 := false } else p.flags
+      gg.sym f
+    compute := fun g p b => (st.table.find? fun e => e.1 == ⟨st.kind, g, p.ntl, p.restrictFOV, p.actualBoundaries, b⟩).map (·.2)
     fits := fun g => let gg := st.ofClass g; keyFits gg.maxAbsAx0 gg.maxAbsTang gg.maxAbsTof }
 
 def defaultParams : Params := { flags := ⟨true, true, true, true, true⟩, ntl := 1, restrictFOV := true, actualBoundaries := false }
@@ -146,20 +162,20 @@ def stepLine (st : St) (line : String) : St × String :=
       if !g.valid then ({ st with geo := g, flags := f }, "err")
       else ({ st with geo := g, flags := f }, fmtEff g f)
   | ["sym", s, v, a, t, tf] => (st, answerSym (st.geo.sym st.flags) ⟨I s, I v, I a, I t, I tf⟩)
-  | "pgeo" :: gid :: cls :: rest =>
+  | "pgeo" :: gid :: cls :: elig :: rest =>
     match parseGeo rest with
     | none => (st, "bad-pgeo")
-    | some g => ({ st with geos := (N gid, { g with eqclass := N cls }) :: st.geos.filter (·.1 != N gid) }, "ok")
-  | ["pnew"] => ({ st with pm := { params := defaultParams } }, "ok")
-  | ["pset", f90, f180, fseg, fs, fz, ntl, restr] =>
-    let p : Params := { flags := ⟨B f90, B f180, B fseg, B fs, B fz⟩, ntl := N ntl, restrictFOV := B restr, actualBoundaries := false }
+    | some g => ({ st with geos := (N gid, { g with eqclass := N cls, actualElig := B elig }) :: st.geos.filter (·.1 != N gid) }, "ok")
+  | ["pnew", k, v] => ({ st with kind := N k, actualKeepsViewSym := B v, pm := { params := defaultParams } }, "ok")
+  | ["pset", f90, f180, fseg, fs, fz, ntl, restr, act] =>
+    let p : Params := { flags := ⟨B f90, B f180, B fseg, B fs, B fz⟩, ntl := N ntl, restrictFOV := B restr, actualBoundaries := B act }
     match st.pm.step st.world (.setParams p) with
     | .ok (pm, _) => ({ st with pm := pm }, "ok")
     | .error e => (st, fmtErr e)
   | ["psetup", gid] =>
     let gg := (st.geos.lookup (N gid)).getD default
     if !gg.valid then (st, "err") else
-    match st.pm.step st.world (.setUp gg.eqclass) with
+    match (if st.kind == 1 then st.pm.stepInterp st.world (.setUp gg.eqclass) else st.pm.step st.world (.setUp gg.eqclass)) with
     | .ok (pm, _) => ({ st with pm := pm }, "ok")
     | .error e => (st, fmtErr e)
   | ["pmode", en, bo] =>
@@ -177,7 +193,7 @@ def stepLine (st : St) (line : String) : St × String :=
     -- optional data: the ray-traced elements of a basic bin for the active geometry / parameters
     let st := match rest, st.pm.active with
       | "data" :: ds :: dv :: da :: dt :: dtf :: n :: el, some (g, p) =>
-        { st with table := (⟨g, p.ntl, p.restrictFOV, ⟨I ds, I dv, I da, I dt, I dtf⟩⟩, parseElems (N n) el) :: st.table }
+        { st with table := (⟨st.kind, g, p.ntl, p.restrictFOV, p.actualBoundaries, ⟨I ds, I dv, I da, I dt, I dtf⟩⟩, parseElems (N n) el) :: st.table }
       | _, _ => st
     match st.pm.step st.world (.get ⟨I s, I v, I a, I t, I tf⟩) with
     | .ok (pm, some r) => ({ st with pm := pm }, s!"row {fmtBin r.bin} {fmtElems (sortElems r.elems)}")
